@@ -32,6 +32,11 @@ Non-trivial = container with at least one DEFLATE/PNG chunk; distinct = hash of 
     aggregate: None,
 };
 
+/// a persistent fault that has been delivered this many times without the call returning is
+/// reported (property: "the call returns Err"); far above any bounded retry policy
+const SPIN_LIMIT: usize = 10_000;
+const SPIN_MARK: &str = "verif-c13: persistent I/O error delivered SPIN_LIMIT times, call still running";
+
 const KINDS: [ErrorKind; 5] = [
     ErrorKind::Other,
     ErrorKind::BrokenPipe,
@@ -61,6 +66,8 @@ struct Src<'a> {
     fired: bool,
     /// transient fault: the error is returned once, later calls proceed normally
     transient: bool,
+    /// number of times the fault was delivered (a persistent fault is delivered on every call)
+    refused: usize,
 }
 
 impl<'a> Read for Src<'a> {
@@ -71,6 +78,12 @@ impl<'a> Read for Src<'a> {
         if let Some((off, kind)) = self.fault {
             if self.pos >= off && !(self.transient && self.fired) {
                 self.fired = true;
+                self.refused += 1;
+                if self.refused > SPIN_LIMIT {
+                    // the call has been given SPIN_LIMIT errors in a row and still has not returned:
+                    // end it here (a hang would only be reported as undecided) and report it
+                    panic!("{}", SPIN_MARK);
+                }
                 return Err(std::io::Error::new(kind, fault_message(off)));
             }
         }
@@ -99,6 +112,8 @@ struct Dst<'a> {
     fired: bool,
     /// transient fault: the error is returned once, later writes are accepted again
     transient: bool,
+    /// number of times the fault was delivered (a persistent fault is delivered on every call)
+    refused: usize,
 }
 
 impl<'a> Write for Dst<'a> {
@@ -109,6 +124,12 @@ impl<'a> Write for Dst<'a> {
         if let Some((off, kind)) = self.fault {
             if self.accepted.len() >= off && !(self.transient && self.fired) {
                 self.fired = true;
+                self.refused += 1;
+                if self.refused > SPIN_LIMIT {
+                    // the call has been given SPIN_LIMIT errors in a row and still has not returned:
+                    // end it here (a hang would only be reported as undecided) and report it
+                    panic!("{}", SPIN_MARK);
+                }
                 return match kind {
                     Some(k) => Err(std::io::Error::new(k, fault_message(off))),
                     None => Ok(0),
@@ -138,6 +159,12 @@ impl<'a> Write for Dst<'a> {
         if let Some((off, kind)) = self.fault {
             if self.accepted.len() >= off && !(self.transient && self.fired) {
                 self.fired = true;
+                self.refused += 1;
+                if self.refused > SPIN_LIMIT {
+                    // the call has been given SPIN_LIMIT errors in a row and still has not returned:
+                    // end it here (a hang would only be reported as undecided) and report it
+                    panic!("{}", SPIN_MARK);
+                }
                 return match kind {
                     Some(k) => Err(std::io::Error::new(k, fault_message(off))),
                     None => Ok(0),
@@ -222,6 +249,7 @@ pub fn run_plan(e: &[u8], f: &[u8], plan: &Plan, ctx: &mut Ctx) -> Result<(), Fa
         fault: None,
         fired: false,
         transient: plan.transient,
+        refused: 0,
     };
     let mut dst = Dst {
         accepted: Vec::new(),
@@ -230,6 +258,7 @@ pub fn run_plan(e: &[u8], f: &[u8], plan: &Plan, ctx: &mut Ctx) -> Result<(), Fa
         fault: None,
         fired: false,
         transient: plan.transient,
+        refused: 0,
     };
     let mut site = "fragmented".to_string();
     if let Some((is_src, off, kind)) = plan.fault {
@@ -245,6 +274,15 @@ pub fn run_plan(e: &[u8], f: &[u8], plan: &Plan, ctx: &mut Ctx) -> Result<(), Fa
     let r = guard(|| preflate_rs::recreated_zlib_chunks(&mut src, &mut dst).map_err(|e| err_info(&e)));
     let fired = src.fired || dst.fired;
     match r {
+        Err(c) if c.msg.contains(SPIN_MARK) => Err(Failure::new(
+            "C13",
+            "no-return",
+            &format!("{}:still-running-after-{}-errors", site, SPIN_LIMIT),
+            format!(
+                "the fault object returned its I/O error {} times in a row and the call kept calling it instead of returning Err ({:?})",
+                SPIN_LIMIT, plan.fault
+            ),
+        )),
         Err(c) => Err(panic_failure("C13", &format!("recreated_zlib_chunks ({})", site), &c)),
         Ok(res) => {
             if !f.starts_with(&dst.accepted) {
